@@ -14,6 +14,10 @@ import (
 
 func (st *pkgState) transformFunc(fi *funcInfo) {
 	st.transformBlock(fi, fi.decl.Body)
+	if len(fi.topDecls) > 0 {
+		fi.decl.Body.List = append(fi.topDecls, fi.decl.Body.List...)
+		fi.topDecls = nil
+	}
 }
 
 // transformBlock rewrites the statement list of a block / clause in place.
@@ -144,10 +148,29 @@ func terminatingCheck(is *ast.IfStmt) bool {
 
 // sink says where the results of an inlined call go.
 type sink struct {
-	keepReturns bool        // `return h(...)`: the callee's returns become the caller's
-	lhs         []ast.Expr  // else: assigned at every return site (identifiers or `_`)
-	tail        *ast.IfStmt // optional check duplicated after the assignment at every return site
+	keepReturns bool            // `return h(...)`: the callee's returns become the caller's
+	lhs         []ast.Expr      // else: assigned at every return site (identifiers or `_`)
+	tail        *ast.IfStmt     // optional check duplicated after the assignment at every return site
+	defs        map[string]bool // names the statement itself defines (hoisted before the inlined block)
 }
+
+// definedNames lists the identifiers a `:=` statement introduces.
+func (st *pkgState) definedNames(as *ast.AssignStmt) map[string]bool {
+	if as.Tok != token.DEFINE {
+		return nil
+	}
+	m := map[string]bool{}
+	for _, e := range as.Lhs {
+		if id, ok := e.(*ast.Ident); ok && id.Name != "_" && st.defOf(id) != nil {
+			m[id.Name] = true
+		}
+	}
+	return m
+}
+
+// takePre returns (and clears) the declarations an expansion needs ahead of
+// the hoisted variables.
+func (st *pkgState) takePre() []ast.Stmt { return nil }
 
 func (st *pkgState) inlineOnce(fi *funcInfo, s, next ast.Stmt) (repl []ast.Stmt, usedNext, ok bool) {
 	pos := s.Pos()
@@ -201,12 +224,12 @@ func (st *pkgState) inlineOnce(fi *funcInfo, s, next ast.Stmt) (repl []ast.Stmt,
 		if len(x.Rhs) == 1 {
 			if call, ok := x.Rhs[0].(*ast.CallExpr); ok && st.inlinable(call) && (x.Tok == token.DEFINE || x.Tok == token.ASSIGN) && simpleLHS(x.Lhs) && len(x.Lhs) == st.numResults(call) {
 				pre := st.hoistDefs(x, call)
-				sk := sink{lhs: x.Lhs}
+				sk := sink{lhs: x.Lhs, defs: st.definedNames(x)}
 				if is, ok := next.(*ast.IfStmt); ok && terminatingCheck(is) {
 					sk.tail = is
 				}
 				if body, ok := st.expand(fi, call, sk); ok {
-					out := append(pre, body...)
+					out := append(append(st.takePre(), pre...), body...)
 					return append(out, &ast.EmptyStmt{Semicolon: pos, Implicit: true}), sk.tail != nil, true
 				}
 				return nil, false, false
@@ -217,12 +240,12 @@ func (st *pkgState) inlineOnce(fi *funcInfo, s, next ast.Stmt) (repl []ast.Stmt,
 			if call, ok := as.Rhs[0].(*ast.CallExpr); ok && st.inlinable(call) && (as.Tok == token.DEFINE || as.Tok == token.ASSIGN) && simpleLHS(as.Lhs) && len(as.Lhs) == st.numResults(call) {
 				pre := st.hoistDefs(as, call)
 				rest := &ast.IfStmt{If: x.If, Cond: x.Cond, Body: x.Body, Else: x.Else}
-				sk := sink{lhs: as.Lhs}
+				sk := sink{lhs: as.Lhs, defs: st.definedNames(as)}
 				if terminatingCheck(rest) {
 					sk.tail = rest
 				}
 				if body, ok := st.expand(fi, call, sk); ok {
-					list := append(pre, body...)
+					list := append(append(st.takePre(), pre...), body...)
 					if sk.tail == nil {
 						list = append(list, rest)
 					}
@@ -529,10 +552,12 @@ func replaceExpr(root ast.Node, old, new ast.Expr) bool {
 func (st *pkgState) expand(fi *funcInfo, call *ast.CallExpr, sk sink) ([]ast.Stmt, bool) {
 	callee := st.staticCallee(call)
 	ci := st.cand[callee]
+	st.preDecls = nil
 	if ci == nil || !ci.ok {
 		return nil, false
 	}
 	decline := func(why string) ([]ast.Stmt, bool) {
+		st.preDecls = nil
 		st.res.Declined = append(st.res.Declined, fmt.Sprintf("%s at %s: %s", callee.FullName(), fi.obj.FullName(), why))
 		return nil, false
 	}
@@ -571,6 +596,13 @@ func (st *pkgState) expand(fi *funcInfo, call *ast.CallExpr, sk sink) ([]ast.Stm
 	// ---- capture check: identifiers of the callee that denote package-level or
 	// universe objects (or imported packages) must denote the same at the call site
 	captureErr := ""
+	shadowedTypes := map[*types.TypeName]*ast.Ident{}
+	var topScope *types.Scope
+	var topPos token.Pos
+	if ofd, ok := st.o(fi.decl).(*ast.FuncDecl); ok && ofd.Body != nil {
+		topPos = ofd.Body.Lbrace + 1
+		topScope = st.pkg.Types.Scope().Innermost(topPos)
+	}
 	needImport := map[string]string{}
 	check := func(n ast.Node) {
 		if n == nil || reflect.ValueOf(n).IsNil() {
@@ -610,7 +642,21 @@ func (st *pkgState) expand(fi *funcInfo, call *ast.CallExpr, sk sink) ([]ast.Stm
 					return true // local of the callee (renamed below)
 				}
 				_, found := scope.LookupParent(id.Name, callPos)
-				if found != obj {
+				if found != obj || sk.defs[id.Name] {
+					// shadowed at the call site (or about to be, by a variable the replaced statement
+					// defines). A type can still be reached through an alias declared at the top of
+					// the calling function, where the name has its package-level meaning.
+					tn, isType := obj.(*types.TypeName)
+					if isType && topScope != nil {
+						if _, atTop := topScope.LookupParent(id.Name, topPos); atTop == obj {
+							if _, seen := shadowedTypes[tn]; !seen {
+								if oi, ok := st.o(id).(*ast.Ident); ok {
+									shadowedTypes[tn] = oi
+								}
+							}
+							return true
+						}
+					}
 					captureErr = "identifier " + id.Name + " means something else at the call site"
 				}
 			}
@@ -682,9 +728,18 @@ func (st *pkgState) expand(fi *funcInfo, call *ast.CallExpr, sk sink) ([]ast.Stm
 		}
 		if isLocal(obj) {
 			id.Name += suffix
+		} else if tn, ok := obj.(*types.TypeName); ok && shadowedTypes[tn] != nil {
+			id.Name += "_t" + suffix
+			delete(st.orig, id)
 		}
 		return true
 	})
+	for tn, oi := range shadowedTypes {
+		rhs := ident(tn.Name())
+		st.orig[rhs] = oi // so that a further expansion of this body sees what the name means
+		ts := &ast.TypeSpec{Name: ident(tn.Name() + "_t" + suffix), Assign: pos, Type: rhs}
+		st.preDecls = append(st.preDecls, &ast.DeclStmt{Decl: &ast.GenDecl{TokPos: pos, Tok: token.TYPE, Specs: []ast.Spec{ts}}})
+	}
 	// re-read the renamed signature
 	var rparams []param
 	if cp.Type.Params != nil {
@@ -811,6 +866,10 @@ func (st *pkgState) expand(fi *funcInfo, call *ast.CallExpr, sk sink) ([]ast.Stm
 			st.noteImports(file, needImport)
 		}
 		st.noteInlined(callee, fi, call)
+		fi.topDecls = append(fi.topDecls, st.preDecls...)
+		st.preDecls = nil
+		fi.topDecls = append(fi.topDecls, st.preDecls...)
+		st.preDecls = nil
 		return []ast.Stmt{&ast.BlockStmt{Lbrace: pos, List: inner, Rbrace: pos}}, true
 	}
 	// ---- body with every return turned into: assign; [check]; leave
@@ -895,6 +954,8 @@ func (st *pkgState) expand(fi *funcInfo, call *ast.CallExpr, sk sink) ([]ast.Stm
 		st.noteImports(file, needImport)
 	}
 	st.noteInlined(callee, fi, call)
+	fi.topDecls = append(fi.topDecls, st.preDecls...)
+	st.preDecls = nil
 	return []ast.Stmt{&ast.BlockStmt{Lbrace: pos, List: inner, Rbrace: pos}}, true
 }
 
